@@ -186,10 +186,21 @@ CHECKS["C15"] = dict(
          "names, x@1 shadow encoding) is outside. Known finding: `size` -> `__size__`.",
     design="§4 C15")
 
+CHECKS["C12"] = dict(
+    engine="E2 mirsym (MIR -> z3)", technique="symbolic execution of rustc MIR (position arithmetic of the class-body re-ordering closures), z3 bit-vector distinctness query, replay in fresh processes (fresh hash seeds)",
+    text="Bounded model checking of the generator's two hash-order escape routes: the positions extract_class records for class-body "
+         "statements (and computes for the synthesised constructor) are extracted from the MIR of its closures and z3 decides that no two "
+         "can be equal for statement indices below 2^20 - equal positions would let the HashMap's iteration order through the stable "
+         "sort; Name::to_py / StringName::to_py render union members from sorted(). A collision is replayed by transpiling a class of "
+         "that shape in 12 fresh processes and comparing the bytes.",
+    note="RESTRICTED claim: hash-order iteration inside the generator only. Hash-ordered iteration in the checker (order of "
+         "diagnostics, is_temporary / args() on the first element of a set), duplicate keys in the class-body map, threads, time and "
+         "earlier runs are outside: Kani models neither RandomState nor concurrency.",
+    design="§4 C12")
+
 NOT_APPLICABLE = {
     "C02": "needs the generator executed on symbolic programs (core::fmt/to_py recursion does not finish in CBMC even on concrete 3-node trees) and membership in Python's grammar as the assertion; no encodable kernel (DESIGN §6)",
     "C04": "oracle is Python's dynamic semantics over whole programs and the subject is the whole checker (HashSet/recursion out of reach of Kani; not loop-free for the MIR executor) (DESIGN §6)",
-    "C12": "quantifies over SipHash seeds, threads and process histories; Kani models neither RandomState randomness nor concurrency and hash-order iteration is not a loop-free kernel (DESIGN §6)",
     "C13": "filesystem, glob and process behaviour have no model in any available solver-based engine; the rest is whole-pipeline (DESIGN §6)",
     "C17": "the deciding code is extract_class (statements keyed and re-ordered through a HashMap<Core, (usize, Core)>, Context look-ups, recursion over Core): HashMap iteration has no model in either engine and Kani does not get through hashbrown (DESIGN §6)",
 }
